@@ -111,6 +111,14 @@ def main(tier):
             for j, b in zip(js, vals):
                 bits[j] = b
         calls.append({"fn": "quantize_weight", "layout": rng.choice([None, None, None, "transposed", "strided", "offset"]), "dtype": dtype, "shape": shape, "bits": bits, "qtype": qt, "axis": axis, "group_size": gs, "optimizer": None, "requant": dtype != "bfloat16"})
+        # a history: between the quantization of this weight and its dequantization, ANOTHER weight with the same element count and
+        # the same configuration but a different shape is quantized and dequantized (the two projections of an MLP, ...)
+        if len(shape) >= 2 and i % 2 == 0:
+            n_ = prod(shape)
+            cands = [list(reversed(shape)), [n_ // shape[-1], shape[-1]], [shape[0], n_ // shape[0]], [shape[-1], n_ // shape[-1]], [n_ // shape[0], shape[0]]]
+            ok_ = [s_ for s_ in cands if s_ != shape and (gs is None or (n_ // (s_[0] if axis == 0 else s_[-1])) % gs == 0)]
+            if ok_:
+                calls[-1]["interleave"] = ok_[0]
     # histories: the same Parameter / tensor object quantized, updated in place, quantized again - must equal a fresh tensor of the same values
     hcalls = []
     for i in range(16 if tier == "quick" else 100):
